@@ -178,7 +178,7 @@ def encode_sequence(content, error=None, version=None, mode=None, mask=None,
         raise ValueError('This function cannot handle more than one mode (yet). Sorry.')
     mode = segments.modes[0]  # CHANGE iff more than one mode is supported!
     # Creating one QR code failed or max_no is not None
-    if mode == consts.MODE_NUMERIC:
+    if isinstance(content, int):
         content = str(content)
     if symbol_count is not None and len(content) < symbol_count:
         raise ValueError(f'The content is not long enough to be divided into {symbol_count} symbols')
